@@ -34,6 +34,8 @@ func digitStr(d []int) string {
 	return sb.String()
 }
 
+var decHist int
+
 func decFmt(tr *Tracer, p, s int, neg bool, ds []int) {
 	ev := Ev{"ev": "Fmt", "p": p, "s": s, "neg": neg && len(ds) > 0, "ds": ds, "text": []int{}, "panic": false,
 		"backok": false, "backneg": false, "backds": []int{}, "cmp": false}
@@ -49,9 +51,21 @@ func decFmt(tr *Tracer, p, s int, neg bool, ds []int) {
 			return
 		}
 		v, _ := new(big.Int).SetString(digitStr(ds), 10)
+		// the text is a function of the value, whatever was asked of the decimal before: formatted
+		// before it got its value, between value and sign, twice
+		decHist++
+		if decHist%4 == 1 {
+			_ = dec.String()
+		}
 		dec.SetBytes(v.Bytes())
+		if decHist%4 == 2 {
+			_ = dec.String()
+		}
 		if neg && len(ds) > 0 {
 			dec.Negate()
+		}
+		if decHist%4 == 3 {
+			_ = dec.String()
 		}
 		text := dec.String()
 		ev["text"] = ints([]byte(text))
@@ -122,6 +136,16 @@ func decMain(args []string) error {
 		for s := -2; s <= 41; s++ {
 			_, err := asetypes.NewDecimal(p, s)
 			tr.Emit(Ev{"ev": "New", "p": p, "s": s, "ok": err == nil})
+			// the other constructor
+			func() {
+				ok := false
+				defer func() {
+					recover()
+					tr.Emit(Ev{"ev": "New", "p": p, "s": s, "ok": ok})
+				}()
+				_, err2 := asetypes.NewDecimalString(p, s, "0")
+				ok = err2 == nil
+			}()
 		}
 	}
 	n := 0
